@@ -67,7 +67,9 @@ def gen_history(r, maxlen):
         elif u < 0.7:
             kind = "inverse" if r.random() < 0.6 else "preimages"
             v = r.random()
-            if v < 0.35:
+            if v < 0.2:
+                ops.append([kind, "buffer", [r.random() for _ in range(n)], r.random() < 0.5])   # the caller's own buffer, overwritten in place
+            elif v < 0.35:
                 ops.append([kind, "returned", r.random()])           # pass back an array returned earlier
             elif v < 0.75:
                 ops.append([kind, "uniform", [r.random() for _ in range(n)]])
@@ -99,6 +101,7 @@ def run_history(h, maxviol=3):
     held = [_Held(lo_arr, "constructor lower", -1), _Held(hi_arr, "constructor upper", -1)] if ctor == "double" else []
     returned = []
     kinds = {}
+    buf = [None, None]
 
     def check_held(step, opname):
         for hd in held:
@@ -130,6 +133,33 @@ def run_history(h, maxviol=3):
                 if not returned:
                     continue
                 ya = returned[int(op[2] * len(returned)) % len(returned)]
+            elif op[1] == "buffer":
+                # ONE coordinate buffer per history (an ndarray, or a Python list), overwritten in place before each use
+                vals = [min(max(l + t * (u - l), l), u) for l, u, t in zip(cfg_lo, cfg_hi, op[2])]
+                if buf[0] is None:
+                    buf[0] = np.array(vals, dtype=np.double)
+                    buf[1] = list(vals)
+                else:
+                    buf[0][:] = vals
+                    buf[1][:] = vals
+                if op[3]:
+                    # list flavour: checked here, separately (a list has no tobytes)
+                    f = ev.GetInverseImage if k == "inverse" else ev.GetPreimages
+                    x = f(buf[1])
+                    fr = _fresh(cfg_lo, cfg_hi, n, m)
+                    want = (fr.GetInverseImage if k == "inverse" else fr.GetPreimages)(np.array(vals, dtype=np.double))
+                    kinds[k] = kinds.get(k, 0) + 1
+                    if buf[1] != vals:
+                        viol.append({"what": f"list argument of {k} was modified by the call", "step": step})
+                        buf[1][:] = vals
+                    if not (float(x) == float(want)):
+                        viol.append({"what": f"{k} differs from the same query on a fresh object", "step": step, "y": vals,
+                                     "got": float(x).hex(), "fresh": float(want).hex(), "argument": "the caller's list, overwritten in place"})
+                    check_held(step, k)
+                    if len(viol) >= maxviol:
+                        break
+                    continue
+                ya = buf[0]
             else:
                 ya = np.array([l + t * (u - l) for l, u, t in zip(cfg_lo, cfg_hi, op[2])], dtype=np.double)
                 ya = np.minimum(np.maximum(ya, np.array(cfg_lo)), np.array(cfg_hi))
